@@ -103,38 +103,52 @@ def build_cases(tier):
                               names=list(names_in_msg), files=files or {}, env=env or {}, tags=set(tags) | {f"state:{st}"}, raw_toml=raw_toml, args=args))
 
     IC, MC = "InvalidConfiguration", "MissingConfiguration"
-    # (i) configuration constraints
-    add("no_schema_source", IC, section={"schema_path": None}, tags={"cfg:no_schema_source"})
-    add("schema_path_missing", IC, section={"schema_path": "nope.graphql"}, names_in_msg=["nope.graphql"], tags={"cfg:path"})
-    add("queries_path_missing", IC, section={"queries_path": "nope_q.graphql"}, names_in_msg=["nope_q.graphql"], tags={"cfg:path"})
-    add("queries_path_absent", MC, section={"queries_path": None}, names_in_msg=["queries_path"], tags={"cfg:missing_key"})
-    add("target_package_path_missing", IC, section={"target_package_path": "no_such_dir"}, names_in_msg=["no_such_dir"], tags={"cfg:path"}, states=("absent",))
-    add("target_package_path_is_file", IC, section={"target_package_path": "schema.graphql"}, names_in_msg=["schema.graphql"], tags={"cfg:path"}, states=("absent",))
-    add("base_client_file_missing", IC, section={"base_client_name": "B", "base_client_file_path": "nope.py"}, names_in_msg=["nope.py"], tags={"cfg:path"})
-    add("base_client_file_is_dir", IC, section={"base_client_name": "B", "base_client_file_path": "adir"}, names_in_msg=["adir"], files={"adir/x.txt": "x"}, tags={"cfg:path"})
-    add("base_client_name_without_file", IC, section={"base_client_name": "OnlyName"}, tags={"cfg:base_client_one_of_two"})
-    add("base_client_file_without_name", IC, section={"base_client_file_path": "mybase.py"}, files={"mybase.py": "class Other:\n    pass\n"}, tags={"cfg:base_client_one_of_two"})
-    add("base_client_class_absent", IC, section={"base_client_name": "Missing", "base_client_file_path": "mybase.py"}, names_in_msg=["Missing"], files={"mybase.py": "class Other:\n    pass\n"}, tags={"cfg:base_client_class"})
-    add("files_to_include_missing", IC, section={"files_to_include": ["nope_inc.py"]}, names_in_msg=["nope_inc.py"], tags={"cfg:path"})
-    add("files_to_include_is_dir", IC, section={"files_to_include": ["adir"]}, names_in_msg=["adir"], files={"adir/x.txt": "x"}, tags={"cfg:path"})
-    for opt in ("target_package_name", "client_name", "client_file_name", "enums_module_name", "input_types_module_name", "fragments_module_name"):
-        for bad in BAD_NAMES:
-            add(f"bad_name:{opt}", IC, section={opt: bad}, names_in_msg=[bad] if bad else [], tags={f"cfg:name:{opt}", f"badname:{bad!r}"},
-                states=("absent",) if tier == "quick" and bad not in ("class", "a-b") else ("absent", "previous_generation"))
-    for bad in [b for b in BAD_NAMES if b]:
-        add("bad_name:base_client_name", IC, section={"base_client_name": bad, "base_client_file_path": "mybase.py"}, files={"mybase.py": f"class {bad}:\n    pass\n" if bad.isidentifier() else "class X:\n    pass\n"},
-            names_in_msg=[bad], tags={"cfg:name:base_client_name", f"badname:{bad!r}"}, states=("absent",))
-    add("unknown_comment_mode", IC, section={"include_comments": "sometimes"}, names_in_msg=["sometimes"], tags={"cfg:comments"})
-    add("scalar_without_type", MC, section={"scalars": {"Date": {"parse": "x.parse"}}}, names_in_msg=["type"], tags={"cfg:scalar"})
-    add("header_env_unset", IC, section={"schema_path": None, "remote_schema_url": "http://localhost:1/graphql", "remote_schema_headers": {"Authorization": "$VERIF_UNSET_VARIABLE"}},
-        names_in_msg=["VERIF_UNSET_VARIABLE"], tags={"cfg:header"})
-    add("no_section", MC, raw_toml='[tool.other]\nx = 1\n', tags={"cfg:no_section"})
-    for bad, tag in (("schema_out", "missing"), ("schema_out.txt", "unknown"), ("schema_out.", "missing")):
-        add(f"target_file_type_{tag}", IC, strategy="graphqlschema", section={"target_file_path": bad}, names_in_msg=[bad], tags={"cfg:target_file_type"})
-    for opt in ("schema_variable_name", "type_map_variable_name"):
-        for bad in BAD_NAMES:
-            add(f"bad_name:{opt}", IC, strategy="graphqlschema", section={opt: bad, "target_file_path": "schema_out.py"}, names_in_msg=[bad] if bad else [],
-                tags={f"cfg:name:{opt}", f"badname:{bad!r}"}, states=("absent",))
+    # (i) configuration constraints, under every base configuration that has its own reading path in the settings
+    base_add = add
+    for base_label, base in (("default", {}), ("custom_operations", {"enable_custom_operations": True}), ("sync", {"async_client": False}),
+                             ("plugin", {"plugins": ["ariadne_codegen.contrib.shorter_results.ShorterResultsPlugin"]})):
+        if base_label != "default" and tier == "quick" and base_label not in ("custom_operations",):
+            continue
+
+        def add(label, expect, *, section=None, strategy="client", tags=(), states=("absent", "previous_generation"), **kw):  # noqa: F811
+            if base_label != "default":
+                if strategy != "client" or label in ("queries_path_absent", "no_section"):
+                    return  # (with custom operations the queries are optional; other strategies do not read these options)
+                states = ("absent",)
+            base_add(label if base_label == "default" else f"{label}+{base_label}", expect, section=dict(base, **(section or {})), strategy=strategy,
+                     tags=set(tags) | ({f"base:{base_label}"} if base_label != "default" else set()), states=states, **kw)
+        add("no_schema_source", IC, section={"schema_path": None}, tags={"cfg:no_schema_source"})
+        add("schema_path_missing", IC, section={"schema_path": "nope.graphql"}, names_in_msg=["nope.graphql"], tags={"cfg:path"})
+        add("queries_path_missing", IC, section={"queries_path": "nope_q.graphql"}, names_in_msg=["nope_q.graphql"], tags={"cfg:path"})
+        add("queries_path_absent", MC, section={"queries_path": None}, names_in_msg=["queries_path"], tags={"cfg:missing_key"})
+        add("target_package_path_missing", IC, section={"target_package_path": "no_such_dir"}, names_in_msg=["no_such_dir"], tags={"cfg:path"}, states=("absent",))
+        add("target_package_path_is_file", IC, section={"target_package_path": "schema.graphql"}, names_in_msg=["schema.graphql"], tags={"cfg:path"}, states=("absent",))
+        add("base_client_file_missing", IC, section={"base_client_name": "B", "base_client_file_path": "nope.py"}, names_in_msg=["nope.py"], tags={"cfg:path"})
+        add("base_client_file_is_dir", IC, section={"base_client_name": "B", "base_client_file_path": "adir"}, names_in_msg=["adir"], files={"adir/x.txt": "x"}, tags={"cfg:path"})
+        add("base_client_name_without_file", IC, section={"base_client_name": "OnlyName"}, tags={"cfg:base_client_one_of_two"})
+        add("base_client_file_without_name", IC, section={"base_client_file_path": "mybase.py"}, files={"mybase.py": "class Other:\n    pass\n"}, tags={"cfg:base_client_one_of_two"})
+        add("base_client_class_absent", IC, section={"base_client_name": "Missing", "base_client_file_path": "mybase.py"}, names_in_msg=["Missing"], files={"mybase.py": "class Other:\n    pass\n"}, tags={"cfg:base_client_class"})
+        add("files_to_include_missing", IC, section={"files_to_include": ["nope_inc.py"]}, names_in_msg=["nope_inc.py"], tags={"cfg:path"})
+        add("files_to_include_is_dir", IC, section={"files_to_include": ["adir"]}, names_in_msg=["adir"], files={"adir/x.txt": "x"}, tags={"cfg:path"})
+        for opt in ("target_package_name", "client_name", "client_file_name", "enums_module_name", "input_types_module_name", "fragments_module_name"):
+            for bad in BAD_NAMES:
+                add(f"bad_name:{opt}", IC, section={opt: bad}, names_in_msg=[bad] if bad else [], tags={f"cfg:name:{opt}", f"badname:{bad!r}"},
+                    states=("absent",) if tier == "quick" and bad not in ("class", "a-b") else ("absent", "previous_generation"))
+        for bad in [b for b in BAD_NAMES if b]:
+            add("bad_name:base_client_name", IC, section={"base_client_name": bad, "base_client_file_path": "mybase.py"}, files={"mybase.py": f"class {bad}:\n    pass\n" if bad.isidentifier() else "class X:\n    pass\n"},
+                names_in_msg=[bad], tags={"cfg:name:base_client_name", f"badname:{bad!r}"}, states=("absent",))
+        add("unknown_comment_mode", IC, section={"include_comments": "sometimes"}, names_in_msg=["sometimes"], tags={"cfg:comments"})
+        add("scalar_without_type", MC, section={"scalars": {"Date": {"parse": "x.parse"}}}, names_in_msg=["type"], tags={"cfg:scalar"})
+        add("header_env_unset", IC, section={"schema_path": None, "remote_schema_url": "http://localhost:1/graphql", "remote_schema_headers": {"Authorization": "$VERIF_UNSET_VARIABLE"}},
+            names_in_msg=["VERIF_UNSET_VARIABLE"], tags={"cfg:header"})
+        add("no_section", MC, raw_toml='[tool.other]\nx = 1\n', tags={"cfg:no_section"})
+        for bad, tag in (("schema_out", "missing"), ("schema_out.txt", "unknown"), ("schema_out.", "missing")):
+            add(f"target_file_type_{tag}", IC, strategy="graphqlschema", section={"target_file_path": bad}, names_in_msg=[bad], tags={"cfg:target_file_type"})
+        for opt in ("schema_variable_name", "type_map_variable_name"):
+            for bad in BAD_NAMES:
+                add(f"bad_name:{opt}", IC, strategy="graphqlschema", section={opt: bad, "target_file_path": "schema_out.py"}, names_in_msg=[bad] if bad else [],
+                    tags={f"cfg:name:{opt}", f"badname:{bad!r}"}, states=("absent",))
+    add = base_add
     # (ii) syntax
     SY = "InvalidGraphqlSyntax"
     add("schema_syntax", SY, schema=SCHEMA_V + "\ntype Broken {\n", names_in_msg=["schema.graphql"], states=STATES, tags={"syntax:schema"})
@@ -163,6 +177,14 @@ def build_cases(tier):
     add("valid_include_comments_bool_true", "ok", section={"include_comments": True}, states=("absent",), tags={"positive", "deprecated_bool_comments"})
     add("valid_include_comments_bool_false", "ok", section={"include_comments": False}, states=("absent",), tags={"positive", "deprecated_bool_comments"})
     add("valid_scalars_section", "ok", section={"scalars": {"ID": {"type": "str"}}}, states=("absent",), tags={"positive", "scalars_section"})
+    hdr = {"Authorization": "$VERIF_SET_VARIABLE", "X-Plain": "plain", "X-Dollar-Inside": "a$b"}
+    add("valid_remote_headers_env", "ok", section={"schema_path": None, "remote_schema_url": "http://verif.invalid/graphql", "remote_schema_headers": hdr, "remote_schema_verify_ssl": False},
+        env={"VERIF_SET_VARIABLE": "s3cret"}, states=("absent",), tags={"positive", "remote_headers"})
+    add("valid_remote_headers_env_graphqlschema", "ok", strategy="graphqlschema", section={"schema_path": None, "remote_schema_url": "http://verif.invalid/graphql", "remote_schema_headers": hdr,
+                                                                                          "target_file_path": "schema_out.py"},
+        env={"VERIF_SET_VARIABLE": "s3cret"}, states=("absent",), tags={"positive", "remote_headers"})
+    add("valid_nested_sections", "ok", section={"scalars": {"ID": {"type": "str"}}, "plugins": [], "files_to_include": [], "extract-operations": {"operations_module_name": "ops"}},
+        states=("absent",), tags={"positive", "nested_sections"})
     add("valid_legacy_section", "ok", raw_toml="LEGACY", states=("absent",), tags={"positive", "legacy_section"})
     return cases
 
@@ -233,6 +255,8 @@ def run_case(case):
                 os.environ[k] = v
             os.environ.pop("VERIF_UNSET_VARIABLE", None)
             args = case["args"] if case["args"] is not None else [strategy]
+            if sec.get("remote_schema_url") and case["expect"] == "ok":
+                genpkg.serve_introspection(case["schema"])
             res = CliRunner().invoke(cli, args, catch_exceptions=True)
             exc = res.exception
             out["exit_code"] = res.exit_code
@@ -256,6 +280,16 @@ def run_case(case):
                         acconfig.get_graphql_schema_settings(cd)
                     if cd != orig:
                         P.append(("settings_reader_mutates_config", f"{json.dumps(cd, default=str)[:300]} != {json.dumps(orig, default=str)[:300]}"))
+                    # ... and neither does the whole command given the dict (plugins receive this very dict)
+                    from ariadne_codegen import main as acm
+                    import contextlib
+                    import io
+                    cd2 = toml.loads(text)
+                    orig2 = copy.deepcopy(cd2)
+                    with contextlib.redirect_stdout(io.StringIO()):
+                        (acm.client if strategy == "client" else acm.graphql_schema)(cd2)
+                    if cd2 != orig2:
+                        P.append(("command_mutates_config", f"{json.dumps(cd2, default=str)[:300]} != {json.dumps(orig2, default=str)[:300]}"))
                 except Exception as e:  # noqa
                     P.append(("settings_reader_failed", f"{type(e).__name__}: {e}"))
                 return out
